@@ -116,6 +116,39 @@ def rule_e1(chk: Check) -> None:
         chk.require("E1", fi.key, "decode of the body", n_cat, 1, "connection_lost no longer decodes text bodies with the declared charset")
 
 
+def rule_e1b(chk: Check, R: str = "E1b", keys=None) -> None:
+    chk.rule(R, "a connection that ended with an error (exc is set), or that closed before any header, never yields a response: every feasible path of connection_lost then sets an exception, whatever was buffered")
+    for key in keys or PROTOS:
+        ci = chk.proj.cls(key)
+        fi = ci.methods.get("connection_lost")
+        if fi is None:
+            continue
+        g = build_cfg(chk.proj, fi)
+        excp = [p for p in fi.params if p != "self"][0]
+        for err, hdr in ((True, True), (True, False), (False, False)):
+            interp = Interp(chk.proj, fi)
+            interp.oracle = {"self.status": IntV(20, 20) if hdr else NoneV(), "self.meta": lit("text/plain") if hdr else NoneV(), "self.header_received": BoolV(hdr), "self.buffer": StrV("bytes", maxb=10)}
+            interp.call_oracle = lambda c: BoolV(False) if method_call(c) and method_call(c)[1] == "done" else None
+            watch = lambda n: [ast.Constant(value=0)] if n.ast is not None and n.kind == "stmt" and any(method_call(c) and method_call(c)[1] in ("set_result", "set_exception") for c in calls(n.ast)) else []  # noqa: E731
+            res = interp.run_paths(g, watch, {excp: ObjV("error") if err else NoneV()})
+            kinds = set()
+            for path, (st, recs) in res:
+                if path[-1][0].kind != "exit":
+                    continue
+                k = tuple(sorted({method_call(c)[1] for node, _v, _s in recs for c in calls(node.ast) if method_call(c) and method_call(c)[1] in ("set_result", "set_exception")}))
+                kinds.add(k)
+            ok = kinds == {("set_exception",)}
+            case = f"exc={'error' if err else 'None'},header_received={hdr}"
+            if not ok:
+                what = "a reset in the middle of the body is reported as a complete, successful response with a truncated body" if hdr else "a connection that ended before any header is not reported as an error"
+                chk.finding(
+                    R, fi.key, f"error-yields-response:{case}",
+                    f"when the connection ends with {case}, connection_lost can finish with {sorted(kinds)}: {what}",
+                    fi.loc(),
+                )
+            chk.ob(R, f"{fi.key}: {case} -> exception", ok, evals=max(1, len(res)))
+
+
 def rule_e2(chk: Check) -> None:
     chk.rule("E2", "status outside 10..69 -> error; body present exactly for 20..29")
     for key in PROTOS:
@@ -278,19 +311,13 @@ def rule_e5_e6(chk: Check) -> None:
         if not ok:
             chk.note(f"E5 (advisory, not a verdict): {name} differs textually between the Gemini and the Titan client protocol; E1-E3/E6 decide each on its own")
         chk.ob("E5", f"{name} compared (advisory)", True, "agree" if ok else "DIFFER", nontrivial=False)
-    chk.rule("E6", "the chunk parameter of both client data_received methods only extends the buffer")
+    chk.rule("E6", "the chunk parameter of both client data_received methods only extends the buffer; nothing is read before the append; limits on an unterminated buffer leave room for a pending terminator")
+    from .c07 import segmentation_rules
+
     for key in PROTOS:
         fi = chk.proj.cls(key).methods.get("data_received")
-        if fi is None:
-            continue
-        param = [p for p in fi.params if p != "self"][0]
-        uses = [n for n in walk(fi.node) if isinstance(n, ast.Name) and n.id == param and isinstance(n.ctx, ast.Load)]
-        good = sum(1 for st in walk(fi.node) if isinstance(st, ast.AugAssign) and isinstance(st.op, ast.Add) and is_self_attr(st.target, "buffer") and isinstance(st.value, ast.Name) and st.value.id == param)
-        good += sum(1 for st in walk(fi.node) if isinstance(st, ast.Assign) and is_self_attr(st.targets[0], "buffer") and isinstance(st.value, ast.BinOp) and isinstance(st.value.right, ast.Name) and st.value.right.id == param and is_self_attr(st.value.left, "buffer"))
-        ok = len(uses) == good and good >= 1
-        if not ok:
-            chk.finding("E6", fi.key, f"chunk-use:{param}", "the result depends on how the stream was segmented: the chunk is used for more than extending the buffer", fi.loc())
-        chk.ob("E6", f"{fi.key}: chunk only appended", ok)
+        if fi is not None:
+            segmentation_rules(chk, "E6", fi)
 
 
 def rule_e7(chk: Check) -> None:
@@ -311,6 +338,7 @@ def rule_e7(chk: Check) -> None:
 def run(chk: Check) -> None:
     rule_e7(chk)
     rule_e1(chk)
+    rule_e1b(chk)
     rule_e2(chk)
     rule_e3(chk)
     rule_e4(chk)
